@@ -124,6 +124,27 @@ class Driver:
             return tuple(conc)
         if form == "iter":
             return iter(list(conc))
+        if form in ("lri", "lru"):
+            # another cache as the source (big enough to hold everything; reading it must not matter to the target)
+            from boltons import cacheutils
+            other = (cacheutils.LRI if form == "lri" else cacheutils.LRU)(max_size=len(conc) + 2)
+            for a, b in conc:
+                other[a] = b
+            return other
+        if form == "ordereddict":
+            import collections
+            return collections.OrderedDict(conc)
+        if form == "keysgetitem":
+            class Src:                    # the minimal mapping protocol dict.update accepts
+                def __init__(self, d):
+                    self.d = d
+
+                def keys(self):
+                    return list(self.d)
+
+                def __getitem__(self, k):
+                    return self.d[k]
+            return Src(dict(conc))
         raise ValueError(form)
 
     def variants(self, op):
@@ -133,6 +154,7 @@ class Driver:
             v = ["pairs", "iter"] if n != "ior" else ["pairs"]
             if distinct:
                 v.append("dict")
+                v += ["lri", "lru", "ordereddict"] + (["keysgetitem"] if n != "ctor" else [])
                 if n == "update" and self.name.startswith("str-keys"):
                     v.append("kw")
                     if len(op["arg"]) >= 2:
@@ -154,9 +176,18 @@ class Driver:
             if n == "getitem":
                 v = [dv(c[K(op["k"])])]
             elif n == "get":
-                v = [dv(c.get(K(op["k"]), V(op["d"])))] if op["d"] != 0 or variant == "explicit" else [dv(c.get(K(op["k"])))]
+                self.ncalls = getattr(self, "ncalls", 0) + 1
+                if op["d"] != 0:
+                    v = [dv(c.get(K(op["k"]), default=V(op["d"])) if self.ncalls % 2 else c.get(K(op["k"]), V(op["d"])))]
+                else:         # no default given, or None spelt out (positionally / by keyword)
+                    v = [dv(c.get(K(op["k"])) if self.ncalls % 3 == 0 else c.get(K(op["k"]), None) if self.ncalls % 3 == 1
+                            else c.get(K(op["k"]), default=None))]
             elif n == "setdefault":
-                v = [dv(c.setdefault(K(op["k"]), V(op["d"])))] if op["d"] != 0 else [dv(c.setdefault(K(op["k"])))]
+                self.ncalls = getattr(self, "ncalls", 0) + 1
+                if op["d"] != 0:
+                    v = [dv(c.setdefault(K(op["k"]), default=V(op["d"])) if self.ncalls % 2 else c.setdefault(K(op["k"]), V(op["d"])))]
+                else:
+                    v = [dv(c.setdefault(K(op["k"])) if self.ncalls % 2 else c.setdefault(K(op["k"]), None))]
             elif n == "setitem":
                 c[K(op["k"])] = V(op["v"])
                 v = []
@@ -266,6 +297,8 @@ class Driver:
                 other[k] = v
             guard("eq_same_" + cls.__name__, lambda: (c == other, c != other, other == c))
         guard("eq_self", lambda: (c == c, c != c))
+        guard("eq_unsized", lambda: (c == None, c != None, c == 5, c != 5))      # noqa: E711 - the comparison itself is the test
+        guard("eq_pairs_list", lambda: (c == list(dict.items(c)), c != list(dict.items(c))) if len(c) else (False, True))
         after = (c.hit_count, c.miss_count, c.soft_miss_count)
         o["reads_touch_counters"] = [a - b for a, b in zip(after, before)]
         return o
@@ -331,7 +364,7 @@ class Driver:
                "eq_same_dict": (True, False), "eq_same_dict_r": (True, False),
                "eq_diffval_dict": (False, True), "eq_shorter_dict": (False, True),
                "eq_longer_dict": (False, True), "eq_same_LRI": (True, False, True),
-               "eq_same_LRU": (True, False, True), "eq_self": (True, False),
+               "eq_same_LRU": (True, False, True), "eq_self": (True, False), "eq_unsized": (False, True, False, True), "eq_pairs_list": (False, True),
                "reads_touch_counters": [0, 0, 0], "order": list(pobs["order"])}
         if "max_size_attr" in o:
             exp["max_size_attr"] = pobs["m"]
